@@ -3,9 +3,12 @@ package schedx
 import (
 	"context"
 	"fmt"
+	"runtime"
 	"sync"
 	"testing"
 	"time"
+
+	"github.com/celestiaorg/go-header/store"
 )
 
 // c14Scenarios: OnDelete registrations racing with each other (and with a deletion): every handler
@@ -56,6 +59,155 @@ func c14Scenarios(batch int) []Scenario {
 				}
 			}
 		}})
+	// P*: the parallel deletion path (threshold hook lowered to 2, three workers with GOMAXPROCS=1) under the
+	// explorer: the dispatcher and the workers are controlled threads, the handler rejects the heights of set R.
+	type prec struct {
+		mu       sync.Mutex
+		nilCalls map[uint64]int
+		errCalls map[uint64]int
+		unread   []uint64 // heights whose header was not readable inside the handler
+		reject   map[uint64]bool
+		err1     error
+		done1    bool
+	}
+	const top = 6 // DeleteRange(1, top) on c1..c6
+	rejects := [][]uint64{{}, {3}, {2, 4}}
+	if thoroughTier {
+		rejects = append(rejects, []uint64{1}, []uint64{5}, []uint64{1, 2}, []uint64{4, 5})
+	}
+	for _, R := range rejects {
+		R := R
+		out = append(out, Scenario{Name: fmt.Sprintf("P-parallel-delete-reject%v", R), Batch: batch, Preload: top,
+			Setup: func(e *Env) {
+				runtime.GOMAXPROCS(1)
+				e.Note("oldthr", store.VerifSetDeleteRangeParallelThreshold(2))
+				r := &prec{nilCalls: map[uint64]int{}, errCalls: map[uint64]int{}, reject: map[uint64]bool{}}
+				for _, h := range R {
+					r.reject[h] = true
+				}
+				e.Note("prec", r)
+				e.St.OnDelete(func(ctx context.Context, h uint64) error {
+					got, gerr := e.St.GetByHeight(ctx, h)
+					r.mu.Lock()
+					defer r.mu.Unlock()
+					if gerr != nil || got.Height() != h {
+						r.unread = append(r.unread, h)
+					}
+					if r.reject[h] {
+						r.errCalls[h]++
+						return fmt.Errorf("handler rejects %d", h)
+					}
+					r.nilCalls[h]++
+					return nil
+				})
+			},
+			Build: func(e *Env) {
+				r := e.Get("prec").(*prec)
+				e.Thread("D", func() {
+					ctx, cancel := context.WithTimeout(bg, time.Hour)
+					defer cancel()
+					err := e.St.DeleteRange(ctx, 1, top)
+					r.mu.Lock()
+					r.err1, r.done1 = err, true
+					r.mu.Unlock()
+				})
+			},
+			Check: func(e *Env, x *Exec, viol func(string, string, ...any)) {
+				defer store.VerifSetDeleteRangeParallelThreshold(e.Get("oldthr").(uint64))
+				r := e.Get("prec").(*prec)
+				r.mu.Lock()
+				defer r.mu.Unlock()
+				if !r.done1 {
+					viol("delete-did-not-return", "DeleteRange(1,%d) on the parallel path did not return", top)
+					return
+				}
+				ctx, cancel := context.WithTimeout(bg, time.Minute)
+				defer cancel()
+				readable := func(h uint64) bool {
+					got, err := e.St.GetByHeight(ctx, h)
+					return err == nil && got.Height() == h && e.C[h].Hash().String() == got.Hash().String()
+				}
+				anyErrCall := false
+				for _, n := range r.errCalls {
+					anyErrCall = anyErrCall || n > 0
+				}
+				removed := ""
+				for h := uint64(1); h < top; h++ {
+					if !readable(h) {
+						removed += fmt.Sprint(h)
+					}
+				}
+				tail, terr := e.St.Tail(ctx)
+				x.Outcome = fmt.Sprintf("err=%v removed=%s tail=%d", r.err1 != nil, removed, tail.Height())
+				if len(r.unread) > 0 {
+					viol("handler-saw-header-unreadable", "handler was called for %v while GetByHeight did not return that header", r.unread)
+				}
+				if anyErrCall && r.err1 == nil {
+					viol("handler-error-swallowed", "a handler returned an error (%v) but DeleteRange returned nil", r.errCalls)
+				}
+				if !anyErrCall && r.err1 != nil {
+					viol("delete-failed-without-handler-failure", "no handler failed but DeleteRange returned %v", r.err1)
+				}
+				for h := uint64(1); h < top; h++ {
+					if n := r.nilCalls[h] + r.errCalls[h]; n > 1 {
+						viol("handler-called-twice", "handler called %d times for height %d in one DeleteRange", n, h)
+					}
+					if !readable(h) {
+						if r.reject[h] {
+							viol("removed-despite-handler-failure", "height %d was removed although its handler fails", h)
+						} else if r.nilCalls[h] != 1 {
+							viol("removed-without-handler", "height %d was removed but its handler returned nil %d times", h, r.nilCalls[h])
+						}
+					}
+				}
+				if terr != nil {
+					viol("tail-unresolved", "Tail() after the call: %v", terr)
+					return
+				}
+				if len(R) == 0 {
+					if tail.Height() != top || removed != "12345" {
+						viol("complete-delete-incomplete", "DeleteRange(1,%d) returned %v but tail=%d removed=%s", top, r.err1, tail.Height(), removed)
+					}
+					return
+				}
+				if r.err1 != nil && tail.Height() > R[0] {
+					viol("tail-moved-past-failed-height", "tail=%d after a failure although the handler rejects %d", tail.Height(), R[0])
+				}
+				// retry of the tail-side deletion once the handler recovered: completes, and calls the handler
+				// again exactly for what is still there
+				still := map[uint64]bool{}
+				for h := uint64(1); h < top; h++ {
+					still[h] = readable(h)
+				}
+				before := map[uint64]int{}
+				for h, n := range r.nilCalls {
+					before[h] = n
+				}
+				r.reject = map[uint64]bool{}
+				r.mu.Unlock()
+				err2 := e.St.DeleteRange(ctx, tail.Height(), top)
+				r.mu.Lock()
+				if err2 != nil {
+					viol("retry-failed", "retry DeleteRange(%d,%d) after the handler recovered: %v", tail.Height(), top, err2)
+					return
+				}
+				for h := uint64(1); h < top; h++ {
+					if readable(h) {
+						viol("retry-incomplete", "height %d still readable after the successful retry", h)
+					}
+					want := 0
+					if still[h] {
+						want = 1
+					}
+					if got := r.nilCalls[h] - before[h]; got != want {
+						viol("retry-handler-calls", "height %d (present before the retry: %v): handler called %d times by the retry, want %d", h, still[h], got, want)
+					}
+				}
+				if t2, err := e.St.Tail(ctx); err != nil || t2.Height() != top {
+					viol("retry-tail", "tail after the retry = %d (%v), want %d", t2.Height(), err, top)
+				}
+			}})
+	}
 	return out
 }
 
